@@ -62,6 +62,8 @@ Lemma HC_fail : forall s e, P s -> P (fail s e).
 Proof. intros s e H. destruct (fail_fields s e) as [T [Pd _]]. apply (hcb_same a0 s); auto. apply HI_fail. apply H. Qed.
 Lemma HC_emit : forall s e, obs_event e -> P s -> P (emit s e).
 Proof. intros s e He H. apply hcb_emit; auto; [destruct e; simpl in He; try contradiction; reflexivity|apply HI_emit; auto; apply H]. Qed.
+Lemma HC_step : forall s kind mkid x, find_mkt mkid (s_markets s) = Some x -> P s -> P (emit s (ev_step s kind x)).
+Proof. intros s kind mkid x Fx H. apply hcb_emit; auto. eapply HI_step; eauto. apply H. Qed.
 Lemma HC_callback : forall s aid kind r mkid, P s -> P (callback s aid kind r mkid).
 Proof.
   intros s aid kind r mkid H. pose proof (HI_callback a0 s aid kind r mkid (proj1 H)) as HI. revert HI.
@@ -149,7 +151,7 @@ End Steps.
 Theorem hcb_run c tape batches funds : hcb (s_agents (init_sim c tape batches funds)) (run c tape batches funds).
 Proof.
   set (a0 := s_agents (init_sim c tape batches funds)).
-  apply (run_pres (hcb a0) (HC_fail a0) (HC_emit a0) (HC_callback a0) (HC_boundary a0) (HC_accept_order a0) (HC_accept_cancel a0)
+  apply (run_pres (hcb a0) (HC_fail a0) (HC_emit a0) (HC_callback a0) (HC_step a0) (HC_boundary a0) (HC_accept_order a0) (HC_accept_cancel a0)
            (HC_round a0) (HC_fills a0) (HC_tick_all a0) (HC_pop_perm a0) (HC_pop_draw a0) (HC_consult a0) (HC_spent a0)
            (HC_halt_after a0) (HC_halt_before a0) (HC_shock a0) (HC_set_cur a0) (HC_begin_iteration a0)).
   split; [|split].
